@@ -4,7 +4,8 @@ From DuneV Require Import C11_Model C11_Spec C11_Proofs C11_Proofs_AL C11_Proofs
 Import ListNotations.
 
 (* ---- ArrayList<T,N> (purge as in fixes/C11-1.patch): for every element type, chunk size N (N <= 0 acts as 1) and
-   every history of push_back / eraseToHere / purge / clear / operator[] assignment / holding an iterator that respects
+   every history of push_back / eraseToHere / purge / clear / operator[] assignment / copying the list and continuing on the copy (copy as in
+   fixes/C11-9.patch) / holding an iterator that respects
    the documented preconditions (spec run has no None), the chunked model never dereferences a null or missing chunk
    and shows after EVERY operation exactly size(), the element sequence (by iteration = by operator[]) and the value
    under the held iterator that the plain list shows; held iterators survive push_back (the spec keeps its index). *)
@@ -56,7 +57,8 @@ Example C11_sllist_modify_iterator_nonvacuous :
 Proof. split; [exact (c11_somes_tr (c11_sls_run2 nat Nat.eqb (([], []), None) c11_ex_sl_ops) (eq_refl true)) | vm_compute; reflexivity]. Qed.
 
 (* ---- lru<Key,Tp> (node list with node identities + key index; insert(key,data) as in fixes/C11-3.patch): for every value type
-   and every history of insert / touch / pop_front / pop_back / resize / clear that respects the documented preconditions
+   and every history of insert / touch / pop_front / pop_back / resize / clear / copying the cache and continuing on the copy (copy as in
+   fixes/C11-8.patch) that respects the documented preconditions
    (no pop on an empty cache, resize only shrinks), the model never follows a dangling index entry and shows after EVERY
    operation the returned reference (or RangeError for touching an absent key), size(), front(), back() and find(k) for
    all observed keys exactly as the recency-ordered association list with unique keys does; inserting a present key
